@@ -313,6 +313,10 @@ func (m Manager) Commit(ctx context.Context, change orm.DIDChangeLog) error {
 func (m Manager) IsCommitted(_ context.Context, change orm.DIDChangeLog) (bool, error) {
 	// get the latest from the didStore
 	_, meta, err := m.store.Resolve(change.DID(), &resolver.ResolveMetadata{AllowDeactivated: true})
+	if errors.Is(err, resolver.ErrNotFound) {
+		// a DID that was never published (e.g. a create that stopped before the network transaction) is not committed
+		return false, nil
+	}
 	if err != nil {
 		return false, err
 	}
